@@ -21,6 +21,9 @@ META = {
 }
 
 
+THREAD_REPLICA = False   # this monitor uses a process-wide sys.monitoring probe / has its own thread trials
+
+
 def shards(tier):
     out = [{'name': 'codepoints%02d' % i, 'kind': 'cp', 'lo': lo, 'hi': min(lo + 0x8000, 0x110000)}
            for i, lo in enumerate(range(0, 0x110000, 0x8000))]
